@@ -57,10 +57,23 @@ def import_closure(mod, seen=None):
 
 
 def theorems_of(mod):
+    """fully qualified names of the theorems of a property file (nested namespaces and sections are tracked)"""
     src = strip_comments(open(module_path(mod)).read())
-    ns = re.search(r'^namespace\s+([\w.]+)', src, re.M)
-    ns = ns.group(1) + '.' if ns else ''
-    return [ns + t for t in re.findall(r'^(?:protected\s+)?theorem\s+([\w.\']+)', src, re.M)]
+    stack, out = [], []
+    for line in src.splitlines():
+        m = re.match(r'^\s*(namespace|section)\s*([\w.]*)', line)
+        if m:
+            stack.append((m.group(1), m.group(2)))
+            continue
+        m = re.match(r'^\s*end\s*([\w.]*)\s*$', line)
+        if m and stack:
+            stack.pop()
+            continue
+        m = re.match(r'^(?:protected\s+|private\s+)?theorem\s+([\w.\']+)', line)
+        if m:
+            ns = '.'.join(n for kind, n in stack if kind == 'namespace' and n)
+            out.append((ns + '.' if ns else '') + m.group(1))
+    return out
 
 
 def regenerate(res, translators=('py2lean', 'py2flow')):
@@ -104,9 +117,9 @@ def audit(mods, thms):
             fh.write(f'#print axioms {t}\n')
     rc, out = sh(['lake', 'env', 'lean', f], cwd=LEAN_DIR, timeout=1800)
     axioms = {}
-    for m in re.finditer(r"'([^']+)' depends on axioms: \[([^\]]*)\]", out):
+    for m in re.finditer(r"'(\S+)' depends on axioms: \[([^\]]*)\]", out):
         axioms[m.group(1)] = [a.strip() for a in m.group(2).replace('\n', ' ').split(',') if a.strip()]
-    for m in re.finditer(r"'([^']+)' does not depend on any axioms", out):
+    for m in re.finditer(r"'(\S+)' does not depend on any axioms", out):
         axioms[m.group(1)] = []
     ok = []
     for t in thms:
